@@ -69,6 +69,10 @@ def corpus(tier, seed):
         add('word run then metacharacter', ' '.join(['word'] * (n // 2)) + '?', 'word ' * n)
     add('word run then metacharacter', 'transaction_identifier_number_of_the_payment$', 'transaction_identifier_number_of_the_payment')
     add('word run then metacharacter', 'the quick brown fox jumps over the lazy dog again and again and again.', 'the quick brown fox')
+    for n in (3000, 6000) if tier == 'quick' else (3000, 6000, 12000):
+        alt = '|'.join('w%d' % i for i in range(n))
+        add('long pattern with a backtracking part', '(?:' + alt + ')|(a|aa)+$', 'a' * 44 + 'b!')
+        add('long pattern with a backtracking part', '(a+)+$|' + alt, 'a' * 40 + '!')
     add('invalid pattern', r'(a', 'aaa')
     add('invalid pattern', r'a{2,1}', 'aaa')
     add('non-string', None, 'aaa')
@@ -112,21 +116,56 @@ def periodic_run(pattern):
 # ---------------------------------------------------------------------------------------------
 # isolated worker
 # ---------------------------------------------------------------------------------------------
-class RegexProxy:
+ENGINE_ENTRIES = ('search', 'findall', 'match', 'fullmatch', 'finditer', 'sub', 'subn', 'split', 'splititer')
+
+
+class PatternProxy:
+    """A compiled pattern whose matching methods are recorded as entries into the engine."""
+
     def __init__(self, real, log):
         self._real = real
         self._log = log
 
     def __getattr__(self, name):
         v = getattr(self._real, name)
-        if name in ('search', 'findall', 'match', 'fullmatch', 'finditer', 'sub', 'subn', 'split', 'compile'):
+        if name in ENGINE_ENTRIES:
             log = self._log
 
             def wrapped(*a, **k):
                 to = k.get('timeout')
-                log.append({'entry': name, 'timeoutMs': -1 if to is None else int(round(float(to) * 1000))})
+                log.append({'entry': 'pattern.' + name, 'timeoutMs': -1 if to is None else int(round(float(to) * 1000)) if float(to) > 0
+                            else min(-1, int(round(float(to) * 1000)))})
                 return v(*a, **k)
             return wrapped
+        return v
+
+
+class RegexProxy:
+    """The regex module as seen by smartquery.functions: every entry into the matching engine (module-level function or
+    method of a compiled pattern) is recorded with the timeout it was given.  Compiling a pattern is not an entry into
+    the matching engine (it takes no timeout; its duration counts towards the envelope of the call)."""
+
+    def __init__(self, real, log):
+        self._real = real
+        self._log = log
+
+    def __getattr__(self, name):
+        v = getattr(self._real, name)
+        if name in ENGINE_ENTRIES:
+            log = self._log
+
+            def wrapped(*a, **k):
+                to = k.get('timeout')
+                log.append({'entry': name, 'timeoutMs': -1 if to is None else int(round(float(to) * 1000)) if float(to) > 0
+                            else min(-1, int(round(float(to) * 1000)))})
+                return v(*a, **k)
+            return wrapped
+        if name == 'compile':
+            log = self._log
+
+            def compiled(*a, **k):
+                return PatternProxy(v(*a, **k), log)
+            return compiled
         return v
 
 
